@@ -1944,132 +1944,59 @@ pub proof fn axiom_dec_enc(set: SetId, s: Seq<char>)
     ensures dec(enc(set, s)) == Some(s)
 { }
 
+#[verifier::external_body] /* proved in group inverse */
 pub proof fn lemma_has_char_concat(a: Seq<char>, b: Seq<char>, c: char)
     ensures has_char(a + b, c) == (has_char(a, c) || has_char(b, c))
-{
-    if has_char(a, c) { let i = choose|i: int| 0 <= i < a.len() && a[i] == c; assert((a + b)[i] == c); }
-    if has_char(b, c) { let i = choose|i: int| 0 <= i < b.len() && b[i] == c; assert((a + b)[a.len() + i] == c); }
-    if has_char(a + b, c) {
-        let i = choose|i: int| 0 <= i < (a + b).len() && (a + b)[i] == c;
-        if i < a.len() { assert(a[i] == c); } else { assert(b[i - a.len()] == c); }
-    }
-}
+{ }
 
+#[verifier::external_body] /* proved in group inverse */
 pub proof fn lemma_enc_concat(set: SetId, a: Seq<char>, b: Seq<char>)
     ensures enc(set, a + b) == enc(set, a) + enc(set, b)
     decreases b.len()
-{
-    if b.len() == 0 {
-        assert(a + b =~= a);
-        assert(enc(set, a) + enc(set, b) =~= enc(set, a));
-    } else {
-        assert((a + b).drop_last() =~= a + b.drop_last());
-        assert((a + b).last() == b.last());
-        lemma_enc_concat(set, a, b.drop_last());
-        assert(enc(set, a + b) =~= enc(set, a) + enc(set, b));
-    }
-}
+{ }
 
+#[verifier::external_body] /* proved in group inverse */
 pub proof fn lemma_enc_single(set: SetId, c: char)
     ensures enc(set, seq![c]) == enc_char(set, c)
-{
-    assert(seq![c].drop_last() =~= Seq::<char>::empty());
-    assert(enc(set, Seq::<char>::empty()) =~= Seq::<char>::empty());
-    assert(Seq::<char>::empty() + enc_char(set, c) =~= enc_char(set, c));
-}
+{ }
 
+#[verifier::external_body] /* proved in group inverse */
 pub proof fn lemma_enc_len(set: SetId, s: Seq<char>)
     ensures (enc(set, s).len() == 0) == (s.len() == 0), enc(set, s).len() >= s.len()
     decreases s.len()
-{
-    if s.len() > 0 { lemma_enc_len(set, s.drop_last()); axiom_pct(s.last()); }
-}
+{ }
 
 /// a character that is escaped in `set` and is not in the %HEX alphabet never appears in an encoded string
+#[verifier::external_body] /* proved in group inverse */
 pub proof fn lemma_enc_excludes(set: SetId, s: Seq<char>, x: char)
     requires escaped_c(set, x), !pct_alphabet(x)
     ensures !has_char(enc(set, s), x)
     decreases s.len()
-{
-    if s.len() > 0 {
-        lemma_enc_excludes(set, s.drop_last(), x);
-        let c = s.last();
-        axiom_pct(c);
-        let e = enc_char(set, c);
-        assert(!has_char(e, x)) by {
-            if has_char(e, x) {
-                let i = choose|i: int| 0 <= i < e.len() && e[i] == x;
-                if escaped_c(set, c) { assert(pct_alphabet(pct(c)[i])); } else { assert(e[i] == c); }
-            }
-        }
-        lemma_has_char_concat(enc(set, s.drop_last()), e, x);
-    }
-}
+{ }
 
 /// an unescaped character of the %HEX-free kind is preserved: it occurs in the encoding iff it occurs in the text
+#[verifier::external_body] /* proved in group inverse */
 pub proof fn lemma_enc_preserves(set: SetId, s: Seq<char>, x: char)
     requires !escaped_c(set, x), !pct_alphabet(x)
     ensures has_char(enc(set, s), x) == has_char(s, x)
     decreases s.len()
-{
-    if s.len() > 0 {
-        lemma_enc_preserves(set, s.drop_last(), x);
-        let c = s.last();
-        axiom_pct(c);
-        let e = enc_char(set, c);
-        assert(has_char(e, x) == (c == x)) by {
-            if has_char(e, x) {
-                let i = choose|i: int| 0 <= i < e.len() && e[i] == x;
-                if escaped_c(set, c) { assert(pct_alphabet(pct(c)[i])); } else { assert(e[i] == c); }
-            }
-            if c == x { assert(e == seq![c]); assert(e[0] == x); }
-        }
-        lemma_has_char_concat(enc(set, s.drop_last()), e, x);
-        assert(s.drop_last().push(c) =~= s);
-        lemma_has_char_concat(s.drop_last(), seq![c], x);
-        assert(s.drop_last() + seq![c] =~= s);
-        assert(has_char(seq![c], x) == (c == x)) by { if c == x { assert(seq![c][0] == x); } }
-    }
-}
+{ }
 
 /// a string made of unescaped characters only is its own encoding (qualifier keys, '/', ...)
+#[verifier::external_body] /* proved in group inverse */
 pub proof fn lemma_enc_identity(set: SetId, s: Seq<char>)
     requires forall|i: int| 0 <= i < s.len() ==> !escaped_c(set, #[trigger] s[i])
     ensures enc(set, s) == s
     decreases s.len()
-{
-    if s.len() > 0 {
-        assert forall|i: int| 0 <= i < s.drop_last().len() implies !escaped_c(set, #[trigger] s.drop_last()[i]) by { assert(s.drop_last()[i] == s[i]); }
-        lemma_enc_identity(set, s.drop_last());
-        assert(!escaped_c(set, s[s.len() - 1]));
-        assert(enc(set, s) =~= s);
-    } else { assert(enc(set, s) =~= s); }
-}
+{ }
 
 /// first / last character of an encoding is the separator `x` (unescaped, not %HEX) iff that of the text is
+#[verifier::external_body] /* proved in group inverse */
 pub proof fn lemma_enc_ends(set: SetId, s: Seq<char>, x: char)
     requires !escaped_c(set, x), !pct_alphabet(x), s.len() > 0
     ensures enc(set, s).len() > 0, (enc(set, s)[0] == x) == (s[0] == x), (enc(set, s).last() == x) == (s.last() == x)
     decreases s.len()
-{
-    lemma_enc_len(set, s);
-    let c = s.last();
-    axiom_pct(c);
-    let e = enc_char(set, c);
-    let pre = enc(set, s.drop_last());
-    assert((pre + e).last() == e.last());
-    assert((e.last() == x) == (c == x)) by { if escaped_c(set, c) { assert(pct_alphabet(pct(c)[pct(c).len() - 1])); } }
-    if s.len() == 1 {
-        assert(s.drop_last() =~= Seq::<char>::empty());
-        assert(pre =~= Seq::<char>::empty());
-        assert(pre + e =~= e);
-        assert((e[0] == x) == (c == x)) by { if escaped_c(set, c) { assert(pct_alphabet(pct(c)[0])); } }
-    } else {
-        lemma_enc_ends(set, s.drop_last(), x);
-        assert((pre + e)[0] == pre[0]);
-        assert(s.drop_last()[0] == s[0]);
-    }
-}
+{ }
 
 // ---- unit theory.inverse2  <= (contracts):0 ----
 // ---- part 2: namespace / subpath text survives encode -> split -> decode ----
@@ -2079,173 +2006,80 @@ pub open spec fn slash_free_nonempty(segs: Seq<Seq<char>>) -> bool {
     forall|i: int| 0 <= i < segs.len() ==> (#[trigger] segs[i]).len() > 0 && !has_char(segs[i], '/')
 }
 
+#[verifier::external_body] /* proved in group inverse */
 pub proof fn lemma_slash_unescaped()
     ensures !escaped_c(SetId::Path, '/'), !escaped_c(SetId::Fragment, '/'), !pct_alphabet('/'), !pct_alphabet('.'),
         !escaped_c(SetId::Path, '.'), !escaped_c(SetId::Fragment, '.')
 { }
 
 /// encoding a '/'-join (with a set that leaves '/' alone) is the '/'-join of the encodings
+#[verifier::external_body] /* proved in group inverse */
 pub proof fn lemma_enc_join(set: SetId, segs: Seq<Seq<char>>)
     requires !escaped_c(set, '/'), slash_free_nonempty(segs)
     ensures enc(set, join_segs(segs)) == join_segs(enc_each(set, segs)), slash_free_nonempty(enc_each(set, segs))
     decreases segs.len()
-{
-    let es = enc_each(set, segs);
-    assert forall|i: int| 0 <= i < es.len() implies (#[trigger] es[i]).len() > 0 && !has_char(es[i], '/') by {
-        lemma_enc_len(set, segs[i]);
-        lemma_enc_preserves(set, segs[i], '/');
-    }
-    if segs.len() == 0 {
-        assert(enc(set, join_segs(segs)) =~= join_segs(es));
-    } else {
-        let init = segs.drop_last();
-        assert forall|i: int| 0 <= i < init.len() implies (#[trigger] init[i]).len() > 0 && !has_char(init[i], '/') by { assert(init[i] == segs[i]); }
-        lemma_enc_join(set, init);
-        assert(es.drop_last() =~= enc_each(set, init));
-        assert(es.last() == enc(set, segs.last()));
-        if init.len() == 0 {
-            assert(join_segs(init) =~= Seq::<char>::empty());
-            assert(join_segs(es.drop_last()) =~= Seq::<char>::empty());
-        } else {
-            lemma_join_nonempty(init);
-            lemma_join_nonempty(enc_each(set, init));
-            lemma_enc_concat(set, join_segs(init) + seq!['/'], segs.last());
-            lemma_enc_concat(set, join_segs(init), seq!['/']);
-            lemma_enc_single(set, '/');
-        }
-    }
-}
+{ }
 
 /// folding the pieces enc(seg_i) with the namespace rule gives the '/'-join of the segments
+#[verifier::external_body] /* proved in group inverse */
 pub proof fn lemma_ns_fold_of_enc(set: SetId, segs: Seq<Seq<char>>)
     requires slash_free_nonempty(segs)
     ensures ns_fold(enc_each(set, segs)) == Some(join_segs(segs))
     decreases segs.len()
-{
-    let es = enc_each(set, segs);
-    if segs.len() > 0 {
-        let init = segs.drop_last();
-        assert forall|i: int| 0 <= i < init.len() implies (#[trigger] init[i]).len() > 0 && !has_char(init[i], '/') by { assert(init[i] == segs[i]); }
-        lemma_ns_fold_of_enc(set, init);
-        assert(es.drop_last() =~= enc_each(set, init));
-        assert(es.last() == enc(set, segs.last()));
-        lemma_enc_len(set, segs.last());
-        axiom_dec_enc(set, segs.last());
-        assert(segs[segs.len() - 1].len() > 0 && !has_char(segs[segs.len() - 1], '/'));
-    }
-}
+{ }
 
 pub open spec fn clean_sub_segs(segs: Seq<Seq<char>>) -> bool {
     forall|i: int| 0 <= i < segs.len() ==> clean_sub_seg(#[trigger] segs[i])
 }
 
 /// an encoding equals "." / ".." only if the text does ('.' is never escaped, escapes contain '%')
+#[verifier::external_body] /* proved in group inverse */
 pub proof fn lemma_enc_dot(set: SetId, s: Seq<char>)
     requires !escaped_c(set, '.')
     ensures is_dot(enc(set, s)) ==> is_dot(s), is_dotdot(enc(set, s)) ==> is_dotdot(s)
-{
-    lemma_enc_len(set, s);
-    let e = enc(set, s);
-    if is_dot(e) || is_dotdot(e) {
-        // every char of e is '.', so no escape happened: each char of s is unescaped and equals its image
-        lemma_enc_all_dots(set, s);
-    }
-}
+{ }
 
+#[verifier::external_body] /* proved in group inverse */
 pub proof fn lemma_enc_all_dots(set: SetId, s: Seq<char>)
     requires forall|i: int| 0 <= i < enc(set, s).len() ==> #[trigger] enc(set, s)[i] == '.'
     ensures enc(set, s) == s
     decreases s.len()
-{
-    if s.len() > 0 {
-        let pre = enc(set, s.drop_last());
-        let c = s.last();
-        let e = enc_char(set, c);
-        axiom_pct(c);
-        assert forall|i: int| 0 <= i < pre.len() implies #[trigger] pre[i] == '.' by { assert((pre + e)[i] == pre[i]); }
-        lemma_enc_all_dots(set, s.drop_last());
-        assert((pre + e)[pre.len() as int] == e[0]);
-        if escaped_c(set, c) { assert(pct_alphabet(pct(c)[0])); assert(false); }
-        assert(e == seq![c]);
-        assert(enc(set, s) =~= s);
-    } else { assert(enc(set, s) =~= s); }
-}
+{ }
 
+#[verifier::external_body] /* proved in group inverse */
 pub proof fn lemma_sub_fold_of_enc(set: SetId, segs: Seq<Seq<char>>)
     requires clean_sub_segs(segs), !escaped_c(set, '.')
     ensures sub_fold(enc_each(set, segs)) == Some(join_segs(segs))
     decreases segs.len()
-{
-    let es = enc_each(set, segs);
-    if segs.len() > 0 {
-        let init = segs.drop_last();
-        assert forall|i: int| 0 <= i < init.len() implies clean_sub_seg(#[trigger] init[i]) by { assert(init[i] == segs[i]); }
-        lemma_sub_fold_of_enc(set, init);
-        assert(es.drop_last() =~= enc_each(set, init));
-        assert(es.last() == enc(set, segs.last()));
-        lemma_enc_len(set, segs.last());
-        axiom_dec_enc(set, segs.last());
-        lemma_enc_dot(set, segs.last());
-        assert(clean_sub_seg(segs[segs.len() - 1]));
-    }
-}
+{ }
 
 /// trimming '/' does nothing to a text that neither starts nor ends with '/'
+#[verifier::external_body] /* proved in group inverse */
 pub proof fn lemma_trim_noop(s: Seq<char>, c: char)
     requires s.len() == 0 || (s[0] != c && s.last() != c)
     ensures trim_spec(s, c) == s
-{
-    if s.len() > 0 { assert(trim_start_spec(s, c) == s); assert(trim_end_spec(s, c) == s); }
-}
+{ }
 
+#[verifier::external_body] /* proved in group inverse */
 pub proof fn lemma_join_ends(segs: Seq<Seq<char>>)
     requires segs.len() > 0, slash_free_nonempty(segs)
     ensures join_segs(segs).len() > 0, join_segs(segs)[0] != '/', join_segs(segs).last() != '/'
     decreases segs.len()
-{
-    let init = segs.drop_last();
-    let l = segs.last();
-    assert(l.len() > 0 && !has_char(l, '/')) by { assert(segs[segs.len() - 1] == l); }
-    assert(l[0] != '/'); assert(l[l.len() - 1] != '/');
-    if init.len() == 0 {
-        assert(join_segs(init) =~= Seq::<char>::empty());
-    } else {
-        assert forall|i: int| 0 <= i < init.len() implies (#[trigger] init[i]).len() > 0 && !has_char(init[i], '/') by { assert(init[i] == segs[i]); }
-        lemma_join_ends(init);
-        let j = join_segs(init);
-        assert((j + seq!['/'] + l)[0] == j[0]);
-        assert((j + seq!['/'] + l).last() == l.last());
-    }
-}
+{ }
 
 /// C07 / C01 (namespace): the printed namespace parses back to itself
+#[verifier::external_body] /* proved in group inverse */
 pub proof fn lemma_ns_roundtrip(segs: Seq<Seq<char>>)
     requires segs.len() > 0, slash_free_nonempty(segs)
     ensures ns_fold(split_spec(trim_spec(enc(SetId::Path, join_segs(segs)), '/'), '/')) == Some(join_segs(segs))
-{
-    lemma_slash_unescaped();
-    lemma_enc_join(SetId::Path, segs);
-    let es = enc_each(SetId::Path, segs);
-    lemma_join_ends(es);
-    lemma_trim_noop(join_segs(es), '/');
-    lemma_split_of_join(es);
-    lemma_ns_fold_of_enc(SetId::Path, segs);
-}
+{ }
 
 /// C07 / C01 (subpath)
+#[verifier::external_body] /* proved in group inverse */
 pub proof fn lemma_sub_roundtrip(segs: Seq<Seq<char>>)
     requires segs.len() > 0, clean_sub_segs(segs)
     ensures sub_fold(split_spec(trim_spec(enc(SetId::Fragment, join_segs(segs)), '/'), '/')) == Some(join_segs(segs))
-{
-    lemma_slash_unescaped();
-    assert(slash_free_nonempty(segs)) by { assert forall|i: int| 0 <= i < segs.len() implies (#[trigger] segs[i]).len() > 0 && !has_char(segs[i], '/') by { assert(clean_sub_seg(segs[i])); } }
-    lemma_enc_join(SetId::Fragment, segs);
-    let es = enc_each(SetId::Fragment, segs);
-    lemma_join_ends(es);
-    lemma_trim_noop(join_segs(es), '/');
-    lemma_split_of_join(es);
-    lemma_sub_fold_of_enc(SetId::Fragment, segs);
-}
+{ }
 
 // ---- unit theory.inverse3  <= (contracts):0 ----
 // ---- part 3: the qualifier text survives print -> split -> decode ----
@@ -2254,148 +2088,58 @@ pub open spec fn join_with(items: Seq<Seq<char>>, c: char) -> Seq<char> decrease
     else if items.len() == 1 { items[0] }
     else { join_with(items.drop_last(), c) + seq![c] + items.last() }
 }
+#[verifier::external_body] /* proved in group inverse */
 pub proof fn lemma_split_of_join_with(items: Seq<Seq<char>>, c: char)
     requires items.len() > 0, forall|i: int| 0 <= i < items.len() ==> !has_char(#[trigger] items[i], c)
     ensures split_spec(join_with(items, c), c) == items
     decreases items.len()
-{
-    if items.len() == 1 {
-        lemma_split_no_sep(items[0], c);
-        assert(items =~= seq![items[0]]);
-    } else {
-        let init = items.drop_last();
-        assert forall|i: int| 0 <= i < init.len() implies !has_char(#[trigger] init[i], c) by { assert(init[i] == items[i]); }
-        lemma_split_of_join_with(init, c);
-        assert(!has_char(items[items.len() - 1], c));
-        lemma_split_append(join_with(init, c), items.last(), c);
-        assert(init.push(items.last()) =~= items);
-    }
-}
+{ }
+#[verifier::external_body] /* proved in group inverse */
 pub proof fn lemma_join_with_excludes(items: Seq<Seq<char>>, c: char, x: char)
     requires x != c, forall|i: int| 0 <= i < items.len() ==> !has_char(#[trigger] items[i], x)
     ensures !has_char(join_with(items, c), x)
     decreases items.len()
-{
-    if items.len() == 1 { assert(!has_char(items[0], x)); }
-    else if items.len() > 1 {
-        let init = items.drop_last();
-        assert forall|i: int| 0 <= i < init.len() implies !has_char(#[trigger] init[i], x) by { assert(init[i] == items[i]); }
-        lemma_join_with_excludes(init, c, x);
-        assert(!has_char(items[items.len() - 1], x));
-        lemma_has_char_concat(join_with(init, c), seq![c], x);
-        lemma_has_char_concat(join_with(init, c) + seq![c], items.last(), x);
-        assert(!has_char(seq![c], x)) by { if has_char(seq![c], x) { let i = choose|i: int| 0 <= i < seq![c].len() && seq![c][i] == x; } }
-    }
-}
+{ }
 
 pub open spec fn q_item(kv: (QualifierKey, SmallString)) -> Seq<char> { enc(SetId::Query, kv.0.0@) + seq!['='] + enc(SetId::Query, kv.1@) }
 pub open spec fn q_items(v: Seq<(QualifierKey, SmallString)>) -> Seq<Seq<char>> { v.map_values(|kv: (QualifierKey, SmallString)| q_item(kv)) }
 
+#[verifier::external_body] /* proved in group inverse */
 pub proof fn lemma_quals_text_shape(v: Seq<(QualifierKey, SmallString)>)
     requires v.len() > 0
     ensures quals_text(v) == seq!['?'] + join_with(q_items(v), '&')
     decreases v.len()
-{
-    let items = q_items(v);
-    if v.len() == 1 {
-        assert(v.drop_last() =~= Seq::<(QualifierKey, SmallString)>::empty());
-        assert(quals_text(v.drop_last()) =~= Seq::<char>::empty());
-        assert(items[0] == q_item(v[0]));
-        assert(quals_text(v) =~= seq!['?'] + join_with(items, '&'));
-    } else {
-        lemma_quals_text_shape(v.drop_last());
-        assert(items.drop_last() =~= q_items(v.drop_last()));
-        assert(items.last() == q_item(v.last()));
-        assert(quals_text(v) =~= seq!['?'] + join_with(items, '&'));
-    }
-}
+{ }
 
+#[verifier::external_body] /* proved in group inverse */
 pub proof fn lemma_key_chars(k: Seq<char>)
     requires canon_key(k)
     ensures enc(SetId::Query, k) == k, !has_char(k, '='), !has_char(k, '&'), !has_char(k, '?'), !has_char(k, '#'), lower_ascii_seq(k) == k
-{
-    assert forall|i: int| 0 <= i < k.len() implies !escaped_c(SetId::Query, #[trigger] k[i]) by { assert(key_char(k[i])); assert(!ascii_upper_c(k[i])); }
-    lemma_enc_identity(SetId::Query, k);
-    assert forall|i: int| 0 <= i < k.len() implies k[i] != '=' && k[i] != '&' && k[i] != '?' && k[i] != '#' by { assert(key_char(k[i])); }
-    lemma_lower_ascii_fixed(k);
-}
+{ }
 
+#[verifier::external_body] /* proved in group inverse */
 pub proof fn lemma_q_item_chars(kv: (QualifierKey, SmallString))
     requires canon_key(kv.0.0@)
     ensures !has_char(q_item(kv), '&'), !has_char(q_item(kv), '?'), !has_char(q_item(kv), '#'),
         first_index_of(q_item(kv), '=') == kv.0.0@.len(),
         q_item(kv).subrange(0, kv.0.0@.len() as int) == kv.0.0@,
         q_item(kv).subrange(kv.0.0@.len() as int + 1, q_item(kv).len() as int) == enc(SetId::Query, kv.1@),
-{
-    let k = kv.0.0@;
-    let ev = enc(SetId::Query, kv.1@);
-    lemma_key_chars(k);
-    lemma_enc_excludes(SetId::Query, kv.1@, '&');
-    lemma_enc_excludes(SetId::Query, kv.1@, '?');
-    lemma_enc_excludes(SetId::Query, kv.1@, '#');
-    let it = q_item(kv);
-    assert(it == k + seq!['='] + ev);
-    lemma_has_char_concat(k, seq!['='], '&'); lemma_has_char_concat(k + seq!['='], ev, '&');
-    lemma_has_char_concat(k, seq!['='], '?'); lemma_has_char_concat(k + seq!['='], ev, '?');
-    lemma_has_char_concat(k, seq!['='], '#'); lemma_has_char_concat(k + seq!['='], ev, '#');
-    assert(!has_char(seq!['='], '&') && !has_char(seq!['='], '?') && !has_char(seq!['='], '#')) by {
-        assert forall|i: int| 0 <= i < seq!['='].len() implies seq!['='][i] == '=' by { }
-    }
-    lemma_split_join(k, ev, '=');
-    assert(it.subrange(0, k.len() as int) =~= k);
-    assert(it.subrange(k.len() as int + 1, it.len() as int) =~= ev);
-}
+{ }
 
+#[verifier::external_body] /* proved in group inverse */
 pub proof fn lemma_kv_pos_end(acc: KV, k: Seq<char>)
     requires forall|i: int| 0 <= i < acc.len() ==> str_lt((#[trigger] acc[i]).0, k)
     ensures kv_pos_of(acc, k) == acc.len(), !kv_has_key(acc, k)
     decreases acc.len()
-{
-    if acc.len() > 0 {
-        assert forall|i: int| 0 <= i < acc.drop_last().len() implies str_lt((#[trigger] acc.drop_last()[i]).0, k) by { assert(acc.drop_last()[i] == acc[i]); }
-        lemma_kv_pos_end(acc.drop_last(), k);
-        assert(str_lt(acc[acc.len() - 1].0, k));
-    }
-    lemma_lt_irrefl(k);
-    if kv_has_key(acc, k) { let i = choose|i: int| 0 <= i < acc.len() && (#[trigger] acc[i]).0 == k; assert(str_lt(acc[i].0, k)); }
-}
+{ }
 
 /// folding the printed items gives the pairs back
+#[verifier::external_body] /* proved in group inverse */
 pub proof fn lemma_dq_fold_items(v: Seq<(QualifierKey, SmallString)>)
     requires wf_seq(v), forall|i: int| 0 <= i < v.len() ==> (#[trigger] v[i]).1@.len() > 0
     ensures dq_fold(q_items(v), Seq::<(Seq<char>, Seq<char>)>::empty()) == Ok::<KV, DqErr>(kvs(v))
     decreases v.len()
-{
-    let items = q_items(v);
-    let e = Seq::<(Seq<char>, Seq<char>)>::empty();
-    if v.len() == 0 {
-        assert(kvs(v) =~= e);
-    } else {
-        let init = v.drop_last();
-        assert(wf_seq(init)) by {
-            assert forall|a: int, b: int| 0 <= a < b < init.len() implies str_lt(#[trigger] init[a].0.0@, #[trigger] init[b].0.0@) by { assert(init[a] == v[a]); assert(init[b] == v[b]); }
-            assert forall|a: int| 0 <= a < init.len() implies canon_key(#[trigger] init[a].0.0@) by { assert(init[a] == v[a]); }
-        }
-        assert forall|i: int| 0 <= i < init.len() implies (#[trigger] init[i]).1@.len() > 0 by { assert(init[i] == v[i]); }
-        lemma_dq_fold_items(init);
-        assert(items.drop_last() =~= q_items(init));
-        let kv = v.last();
-        assert(items.last() == q_item(kv));
-        assert(canon_key(v[v.len() - 1].0.0@));
-        lemma_q_item_chars(kv);
-        let k = kv.0.0@;
-        lemma_key_chars(k);
-        axiom_dec_enc(SetId::Query, kv.1@);
-        let acc = kvs(init);
-        assert forall|i: int| 0 <= i < acc.len() implies str_lt((#[trigger] acc[i]).0, k) by {
-            assert(acc[i].0 == init[i].0.0@); assert(init[i] == v[i]);
-            assert(str_lt(v[i].0.0@, v[v.len() - 1].0.0@));
-        }
-        lemma_kv_pos_end(acc, k);
-        assert(v[v.len() - 1].1@.len() > 0);
-        assert(acc.insert(acc.len() as int, (k, kv.1@)) =~= kvs(v));
-    }
-}
+{ }
 
 // ---- unit theory.inverse4  <= (contracts):0 ----
 // ---- part 4: phase_a / phase_b applied to canon_spec ----
@@ -2414,179 +2158,68 @@ pub open spec fn norm_parts(p: PurlParts, ns_segs: Seq<Seq<char>>, sub_segs: Seq
     && (forall|i: int| 0 <= i < p.qualifiers.qualifiers@.len() ==> (#[trigger] p.qualifiers.qualifiers@[i]).1@.len() > 0)
 }
 
+#[verifier::external_body] /* proved in group inverse */
 pub proof fn lemma_lits()
     ensures "/"@ == seq!['/'], "@"@ == seq!['@'], "#"@ == seq!['#'], "pkg:"@.len() == 4
-{
-    reveal_strlit("/"); reveal_strlit("@"); reveal_strlit("#"); reveal_strlit("pkg:");
-    assert("/"@ =~= seq!['/']); assert("@"@ =~= seq!['@']); assert("#"@ =~= seq!['#']);
-}
+{ }
 
+#[verifier::external_body] /* proved in group inverse */
 pub proof fn lemma_single_excludes(c: char, x: char)
     requires c != x
     ensures !has_char(seq![c], x)
-{
-    if has_char(seq![c], x) { let i = choose|i: int| 0 <= i < seq![c].len() && seq![c][i] == x; }
-}
+{ }
 
+#[verifier::external_body] /* proved in group inverse */
 pub proof fn lemma_type_excludes(ty: Seq<char>, x: char)
     requires valid_type(ty), x == '#' || x == '?' || x == '@' || x == '/'
     ensures !has_char(ty, x), ty.len() > 0, ty[0] != '/'
-{
-    if has_char(ty, x) { let i = choose|i: int| 0 <= i < ty.len() && ty[i] == x; assert(type_char(ty[i])); }
-    assert(type_char(ty[0]));
-}
+{ }
 
 /// the path part after the type contains neither '#' nor '?'
+#[verifier::external_body] /* proved in group inverse */
 pub proof fn lemma_rest_excludes(p: PurlParts, x: char)
     requires x == '#' || x == '?'
     ensures !has_char(rest_of(p), x)
-{
-    lemma_lits();
-    let a = opt_part(p.namespace@.len() > 0, enc(SetId::Path, p.namespace@) + "/"@);
-    let b = enc(SetId::Segment, p.name@);
-    let c = opt_part(p.version@.len() > 0, "@"@ + enc(SetId::Path, p.version@));
-    lemma_enc_excludes(SetId::Path, p.namespace@, x);
-    lemma_enc_excludes(SetId::Segment, p.name@, x);
-    lemma_enc_excludes(SetId::Path, p.version@, x);
-    lemma_single_excludes('/', x);
-    lemma_single_excludes('@', x);
-    lemma_has_char_concat(enc(SetId::Path, p.namespace@), seq!['/'], x);
-    lemma_has_char_concat(seq!['@'], enc(SetId::Path, p.version@), x);
-    lemma_has_char_concat(a, b, x);
-    lemma_has_char_concat(a + b, c, x);
-    assert(!has_char(Seq::<char>::empty(), x));
-}
+{ }
 
+#[verifier::external_body] /* proved in group inverse */
 pub proof fn lemma_quals_text_excludes_hash(v: Seq<(QualifierKey, SmallString)>)
     requires keys_canon(v)
     ensures !has_char(quals_text(v), '#')
     decreases v.len()
-{
-    if v.len() > 0 {
-        assert(keys_canon(v.drop_last())) by { assert forall|i: int| 0 <= i < v.drop_last().len() implies canon_key(#[trigger] v.drop_last()[i].0.0@) by { assert(v.drop_last()[i] == v[i]); } }
-        lemma_quals_text_excludes_hash(v.drop_last());
-        let kv = v.last();
-        assert(canon_key(v[v.len() - 1].0.0@));
-        lemma_key_chars(kv.0.0@);
-        lemma_enc_excludes(SetId::Query, kv.1@, '#');
-        let sep = seq![if v.len() == 1 { '?' } else { '&' }];
-        lemma_single_excludes(if v.len() == 1 { '?' } else { '&' }, '#');
-        lemma_single_excludes('=', '#');
-        let t0 = quals_text(v.drop_last());
-        lemma_has_char_concat(t0, sep, '#');
-        lemma_has_char_concat(t0 + sep, enc(SetId::Query, kv.0.0@), '#');
-        lemma_has_char_concat(t0 + sep + enc(SetId::Query, kv.0.0@), seq!['='], '#');
-        lemma_has_char_concat(t0 + sep + enc(SetId::Query, kv.0.0@) + seq!['='], enc(SetId::Query, kv.1@), '#');
-    }
-}
+{ }
 
 /// phase B on the path part
+#[verifier::external_body] /* proved in group inverse */
 pub proof fn lemma_phase_b_canon(p: PurlParts, ns_segs: Seq<Seq<char>>, sub_segs: Seq<Seq<char>>)
     requires norm_parts(p, ns_segs, sub_segs)
     ensures phase_b(rest_of(p)) == Ok::<PhaseB, ParseError>(PhaseB { ns: p.namespace@, name: p.name@, version: p.version@ })
-{
-    lemma_lits();
-    let ens = enc(SetId::Path, p.namespace@);
-    let en = enc(SetId::Segment, p.name@);
-    let ev = enc(SetId::Path, p.version@);
-    let nsp = opt_part(p.namespace@.len() > 0, ens + seq!['/']);
-    let r1 = nsp + en;
-    let r = rest_of(p);
-    // '@' : only the version separator
-    lemma_enc_excludes(SetId::Path, p.namespace@, '@');
-    lemma_enc_excludes(SetId::Segment, p.name@, '@');
-    lemma_enc_excludes(SetId::Path, p.version@, '@');
-    lemma_single_excludes('/', '@');
-    lemma_has_char_concat(ens, seq!['/'], '@');
-    lemma_has_char_concat(nsp, en, '@');
-    assert(!has_char(Seq::<char>::empty(), '@'));
-    assert(!has_char(r1, '@'));
-    if p.version@.len() > 0 {
-        assert(r =~= r1 + seq!['@'] + ev);
-        lemma_rsplit_join(r1, ev, '@');
-        assert(r.subrange(0, r1.len() as int) =~= r1);
-        assert(r.subrange(r1.len() as int + 1, r.len() as int) =~= ev);
-        axiom_dec_enc(SetId::Path, p.version@);
-    } else {
-        assert(r =~= r1);
-        lemma_last_index(r1, '@');
-        assert(p.version@ =~= Seq::<char>::empty());
-    }
-    // '/' : the name never contains one
-    lemma_enc_excludes(SetId::Segment, p.name@, '/');
-    axiom_dec_enc(SetId::Segment, p.name@);
-    if p.namespace@.len() > 0 {
-        assert(r1 =~= ens + seq!['/'] + en);
-        lemma_rsplit_join(ens, en, '/');
-        assert(r1.subrange(0, ens.len() as int) =~= ens);
-        assert(r1.subrange(ens.len() as int + 1, r1.len() as int) =~= en);
-        lemma_ns_roundtrip(ns_segs);
-    } else {
-        assert(r1 =~= en);
-        lemma_last_index(en, '/');
-        assert(p.namespace@ =~= Seq::<char>::empty());
-    }
-}
+{ }
 
 pub open spec fn c_l2(ty: Seq<char>, p: PurlParts) -> Seq<char> { ty + seq!['/'] + rest_of(p) }
 pub open spec fn c_l(ty: Seq<char>, p: PurlParts) -> Seq<char> { c_l2(ty, p) + quals_text(p.qualifiers.qualifiers@) }
 pub open spec fn c_b(ty: Seq<char>, p: PurlParts) -> Seq<char> { c_l(ty, p) + opt_part(p.subpath@.len() > 0, seq!['#'] + enc(SetId::Fragment, p.subpath@)) }
 
 /// stage 1: scheme and leading slashes
+#[verifier::external_body] /* proved in group inverse */
 pub proof fn lemma_pa_scheme(ty: Seq<char>, p: PurlParts)
     requires valid_type(ty)
     ensures
         has_prefix(canon_spec(ty, p), "pkg:"@),
         trim_start_spec(canon_spec(ty, p).subrange("pkg:"@.len() as int, canon_spec(ty, p).len() as int), '/') == c_b(ty, p),
-{
-    lemma_lits();
-    let s = canon_spec(ty, p);
-    let b = c_b(ty, p);
-    assert(s =~= "pkg:"@ + b);
-    assert(s.subrange(0, "pkg:"@.len() as int) =~= "pkg:"@);
-    assert(s.subrange("pkg:"@.len() as int, s.len() as int) =~= b);
-    lemma_type_excludes(ty, '/');
-    assert(b[0] == ty[0]);
-    assert(trim_start_spec(b, '/') == b);
-}
+{ }
 
 /// stage 2: the subpath is what follows the last '#'
+#[verifier::external_body] /* proved in group inverse */
 pub proof fn lemma_pa_subpath(ty: Seq<char>, p: PurlParts, ns_segs: Seq<Seq<char>>, sub_segs: Seq<Seq<char>>)
     requires valid_type(ty), norm_parts(p, ns_segs, sub_segs)
     ensures
         rsplit_at(c_b(ty, p), '#').0 == c_l(ty, p),
         (match rsplit_at(c_b(ty, p), '#').1 { None => Some(Seq::<char>::empty()), Some(x) => sub_fold(split_spec(trim_spec(x, '/'), '/')) }) == Some(p.subpath@),
-{
-    lemma_lits();
-    let q = p.qualifiers.qualifiers@;
-    let r = rest_of(p);
-    let l2 = c_l2(ty, p);
-    let l = c_l(ty, p);
-    let b = c_b(ty, p);
-    let es = enc(SetId::Fragment, p.subpath@);
-    lemma_type_excludes(ty, '#');
-    lemma_rest_excludes(p, '#');
-    lemma_quals_text_excludes_hash(q);
-    lemma_single_excludes('/', '#');
-    lemma_has_char_concat(ty, seq!['/'], '#');
-    lemma_has_char_concat(ty + seq!['/'], r, '#');
-    lemma_has_char_concat(l2, quals_text(q), '#');
-    assert(!has_char(l, '#'));
-    lemma_enc_excludes(SetId::Fragment, p.subpath@, '#');
-    if p.subpath@.len() > 0 {
-        assert(b =~= l + seq!['#'] + es);
-        lemma_rsplit_join(l, es, '#');
-        assert(b.subrange(0, l.len() as int) =~= l);
-        assert(b.subrange(l.len() as int + 1, b.len() as int) =~= es);
-        lemma_sub_roundtrip(sub_segs);
-    } else {
-        assert(b =~= l);
-        lemma_last_index(l, '#');
-        assert(p.subpath@ =~= Seq::<char>::empty());
-    }
-}
+{ }
 
 /// stage 3: the qualifiers are what follows the last '?'
+#[verifier::external_body] /* proved in group inverse */
 pub proof fn lemma_pa_quals(ty: Seq<char>, p: PurlParts, ns_segs: Seq<Seq<char>>, sub_segs: Seq<Seq<char>>)
     requires valid_type(ty), norm_parts(p, ns_segs, sub_segs)
     ensures
@@ -2595,90 +2228,42 @@ pub proof fn lemma_pa_quals(ty: Seq<char>, p: PurlParts, ns_segs: Seq<Seq<char>>
             None => Ok::<KV, DqErr>(Seq::<(Seq<char>, Seq<char>)>::empty()),
             Some(x) => dq_fold(split_spec(x, '&'), Seq::<(Seq<char>, Seq<char>)>::empty()),
         }) == Ok::<KV, DqErr>(kvs(p.qualifiers.qualifiers@)),
-{
-    lemma_lits();
-    let q = p.qualifiers.qualifiers@;
-    let r = rest_of(p);
-    let l2 = c_l2(ty, p);
-    let l = c_l(ty, p);
-    lemma_type_excludes(ty, '?');
-    lemma_rest_excludes(p, '?');
-    lemma_single_excludes('/', '?');
-    lemma_has_char_concat(ty, seq!['/'], '?');
-    lemma_has_char_concat(ty + seq!['/'], r, '?');
-    assert(!has_char(l2, '?'));
-    if q.len() > 0 {
-        let items = q_items(q);
-        let j = join_with(items, '&');
-        lemma_quals_text_shape(q);
-        assert forall|i: int| 0 <= i < items.len() implies !has_char(#[trigger] items[i], '?') && !has_char(items[i], '&') by {
-            assert(canon_key(q[i].0.0@));
-            lemma_q_item_chars(q[i]);
-            assert(items[i] == q_item(q[i]));
-        }
-        lemma_join_with_excludes(items, '&', '?');
-        assert(l =~= l2 + seq!['?'] + j);
-        lemma_rsplit_join(l2, j, '?');
-        assert(l.subrange(0, l2.len() as int) =~= l2);
-        assert(l.subrange(l2.len() as int + 1, l.len() as int) =~= j);
-        lemma_split_of_join_with(items, '&');
-        lemma_dq_fold_items(q);
-    } else {
-        assert(quals_text(q) =~= Seq::<char>::empty());
-        assert(l =~= l2);
-        lemma_last_index(l2, '?');
-        assert(kvs(q) =~= Seq::<(Seq<char>, Seq<char>)>::empty());
-    }
-}
+{ }
 
 /// stage 4: the type is what precedes the first '/'
+#[verifier::external_body] /* proved in group inverse */
 pub proof fn lemma_pa_type(ty: Seq<char>, p: PurlParts)
     requires valid_type(ty)
     ensures
         c_l2(ty, p).len() > 0, first_index_of(c_l2(ty, p), '/') == ty.len(),
         c_l2(ty, p).subrange(0, ty.len() as int) == ty,
         c_l2(ty, p).subrange(ty.len() as int + 1, c_l2(ty, p).len() as int) == rest_of(p),
-{
-    let r = rest_of(p);
-    let l2 = c_l2(ty, p);
-    lemma_type_excludes(ty, '/');
-    lemma_split_join(ty, r, '/');
-    assert(l2.subrange(0, ty.len() as int) =~= ty);
-    assert(l2.subrange(ty.len() as int + 1, l2.len() as int) =~= r);
-}
+{ }
 
 /// C01 / C09: phase A on the canonical string
+#[verifier::external_body] /* proved in group inverse */
 pub proof fn lemma_phase_a_canon(ty: Seq<char>, p: PurlParts, ns_segs: Seq<Seq<char>>, sub_segs: Seq<Seq<char>>)
     requires valid_type(ty), norm_parts(p, ns_segs, sub_segs)
     ensures phase_a(canon_spec(ty, p)) == Ok::<PhaseA, ParseError>(PhaseA { ty, rest: rest_of(p), sub: p.subpath@, kv: kvs(p.qualifiers.qualifiers@) })
-{
-    lemma_pa_scheme(ty, p);
-    lemma_pa_subpath(ty, p, ns_segs, sub_segs);
-    lemma_pa_quals(ty, p, ns_segs, sub_segs);
-    lemma_pa_type(ty, p);
-}
+{ }
 
 /// C01 / C09 / C19, the inverse direction: parsing the canonical string of normalised parts yields exactly those parts
+#[verifier::external_body] /* proved in group inverse */
 pub proof fn lemma_parse_canon(ty: Seq<char>, p: PurlParts, ns_segs: Seq<Seq<char>>, sub_segs: Seq<Seq<char>>)
     requires valid_type(ty), norm_parts(p, ns_segs, sub_segs)
     ensures
         phase_a(canon_spec(ty, p)) == Ok::<PhaseA, ParseError>(PhaseA { ty, rest: rest_of(p), sub: p.subpath@, kv: kvs(p.qualifiers.qualifiers@) }),
         phase_b(rest_of(p)) == Ok::<PhaseB, ParseError>(PhaseB { ns: p.namespace@, name: p.name@, version: p.version@ }),
-{
-    lemma_phase_a_canon(ty, p, ns_segs, sub_segs);
-    lemma_phase_b_canon(p, ns_segs, sub_segs);
-}
+{ }
 
 /// C19 (one direction): two normalised values with the same canonical string have the same fields
+#[verifier::external_body] /* proved in group inverse */
 pub proof fn lemma_canon_injective(ty1: Seq<char>, p1: PurlParts, n1: Seq<Seq<char>>, s1: Seq<Seq<char>>,
                                    ty2: Seq<char>, p2: PurlParts, n2: Seq<Seq<char>>, s2: Seq<Seq<char>>)
     requires valid_type(ty1), norm_parts(p1, n1, s1), valid_type(ty2), norm_parts(p2, n2, s2), canon_spec(ty1, p1) == canon_spec(ty2, p2)
     ensures ty1 == ty2, p1.namespace@ == p2.namespace@, p1.name@ == p2.name@, p1.version@ == p2.version@, p1.subpath@ == p2.subpath@,
         kvs(p1.qualifiers.qualifiers@) == kvs(p2.qualifiers.qualifiers@)
-{
-    lemma_parse_canon(ty1, p1, n1, s1);
-    lemma_parse_canon(ty2, p2, n2, s2);
-}
+{ }
 
 // ---- unit theory.c01  <= (contracts):0 ----
 // ---- C01 / C10 for the type-agnostic PURL, as a theorem over the specification functions ----
@@ -2947,6 +2532,459 @@ pub proof fn lemma_parsed_is_handed_out<T: FromStr + PurlShape>(s: Seq<char>, g:
     let (ns_segs, sub_segs) = choose|ns_segs: Seq<Seq<char>>, sub_segs: Seq<Seq<char>>| #[trigger] norm_parts(g.parts, ns_segs, sub_segs);
 }
 
+// ---- unit T.PackageType  <= purl/src/package_type.rs:143 ----
+#[derive(Clone, Copy)]
+pub enum PackageType {
+    Cargo,
+    Gem,
+    Golang,
+    Maven,
+    Npm,
+    NuGet,
+    PyPI,
+}
+// ---- unit T.PackageError  <= purl/src/package_type.rs:212 ----
+pub enum PackageError {
+    MissingRequiredField(PurlField),
+    Parse( ParseError),
+    UnsupportedType,
+}
+// ---- unit T.UnsupportedPackageType  <= purl/src/package_type.rs:200 ----
+pub struct UnsupportedPackageType;
+// ---- unit theory.pkgtype  <= (contracts):0 ----
+// ---- vocabulary for the package-type rules, written from C08's wording ----
+pub open spec fn dash(c: char) -> bool { c == '-' || c == '_' || c == '.' }
+
+/// "lower-cased with every maximal run of '-', '_' and '.' replaced by a single '-'"
+pub open spec fn pypi_norm(s: Seq<char>) -> Seq<char> decreases s.len() {
+    if s.len() == 0 { seq![] }
+    else if dash(s.last()) {
+        if s.len() >= 2 && dash(s[s.len() - 2]) { pypi_norm(s.drop_last()) } else { pypi_norm(s.drop_last()).push('-') }
+    } else { pypi_norm(s.drop_last()) + u_to_lower(s.last()) }
+}
+
+pub proof fn lemma_pypi_no_dash(s: Seq<char>)
+    requires forall|i: int| 0 <= i < s.len() ==> !dash(#[trigger] s[i])
+    ensures pypi_norm(s) == lower_seq(s)
+    decreases s.len()
+{
+    if s.len() > 0 { lemma_pypi_no_dash(s.drop_last()); }
+}
+
+pub open spec fn type_name(t: PackageType) -> Seq<char> {
+    match t {
+        PackageType::Cargo => seq!['c', 'a', 'r', 'g', 'o'],
+        PackageType::Gem => seq!['g', 'e', 'm'],
+        PackageType::Golang => seq!['g', 'o', 'l', 'a', 'n', 'g'],
+        PackageType::Maven => seq!['m', 'a', 'v', 'e', 'n'],
+        PackageType::Npm => seq!['n', 'p', 'm'],
+        PackageType::NuGet => seq!['n', 'u', 'g', 'e', 't'],
+        PackageType::PyPI => seq!['p', 'y', 'p', 'i'],
+    }
+}
+
+/// What PackageType::finish may do (C08): the per-type name rule, the maven namespace rule, nothing else touched.
+pub open spec fn pkg_finish_rel(t0: PackageType, p0: PurlParts, t1: PackageType, p1: PurlParts, r: Result<(), PackageError>) -> bool {
+    t1 == t0
+    && p1.namespace == p0.namespace && p1.version == p0.version && p1.qualifiers == p0.qualifiers && p1.subpath == p0.subpath
+    && match t0 {
+        PackageType::Maven =>
+            if all_char(p0.namespace@, '/') { r == Err::<(), PackageError>(PackageError::MissingRequiredField(PurlField::Namespace)) }
+            else { r is Ok && p1.name == p0.name },
+        PackageType::NuGet => r is Ok && p1.name@ == lower_seq(p0.name@),
+        PackageType::PyPI => r is Ok && p1.name@ == pypi_norm(p0.name@),
+        _ => r is Ok && p1.name == p0.name,
+    }
+}
+
+/// `Cow::from(&'static str)` (std: `Cow::Borrowed(s)`), for the stub Cow
+pub fn x_cow_from_str<'a>(s: &'a str) -> (r: Cow<'a, str>)
+    ensures r@ == s@
+{ Cow::Borrowed(s) }
+
+// R9: what thiserror's `#[from]` on `PackageError::Parse` generates (derive semantics, assumed)
+impl vstd::std_specs::convert::FromSpecImpl<ParseError> for PackageError {
+    open spec fn obeys_from_spec() -> bool { true }
+    open spec fn from_spec(e: ParseError) -> Self { PackageError::Parse(e) }
+}
+impl From<ParseError> for PackageError {
+    fn from(e: ParseError) -> (r: Self)
+    { PackageError::Parse(e) }
+}
+
+
+// ---- unit spec.From.UnsupportedPackageType  <= (contracts):0 ----
+
+// the specification side of `impl From<UnsupportedPackageType> for PackageError` (the real body below is checked against it)
+impl vstd::std_specs::convert::FromSpecImpl<UnsupportedPackageType> for PackageError {
+    open spec fn obeys_from_spec() -> bool { true }
+    open spec fn from_spec(e: UnsupportedPackageType) -> Self { PackageError::UnsupportedType }
+}
+
+// ---- unit T.From.UnsupportedPackageType  <= purl/src/package_type.rs:237 ----
+impl From<UnsupportedPackageType> for PackageError {
+    fn from(_e: UnsupportedPackageType) -> Self {
+        PackageError::UnsupportedType
+    }
+}
+impl PurlShape for PackageType {
+// ---- unit spec.PackageType  <= (contracts):0 ----
+    type Error = PackageError;
+    open spec fn type_text(&self) -> Seq<char> { type_name(*self) }
+    open spec fn finish_rel(t0: Self, p0: PurlParts, t1: Self, p1: PurlParts, r: Result<(), PackageError>) -> bool {
+        pkg_finish_rel(t0, p0, t1, p1, r)
+    }
+// ---- unit U-ptname.package_type  <= purl/src/package_type.rs:246 ----
+#[verifier::external_body]
+fn package_type(&self) -> (r: Cow<str>)
+
+{ unimplemented!() }
+// ---- unit U-ptfin.finish  <= purl/src/package_type.rs:250 ----
+#[verifier::external_body]
+fn finish(&mut self, parts: &mut PurlParts) -> (r: Result<(), Self::Error>)
+
+{ unimplemented!() }
+}
+// ---- unit theory.pypi_idem  <= (contracts):0 ----
+// ---- C10: the pypi rule is a projection (pypi_norm(pypi_norm(s)) == pypi_norm(s)) ----
+// A-validated per char (exhaustive over all scalar values):
+#[verifier::external_body]
+pub proof fn axiom_lower_nonempty(c: char)
+    ensures u_to_lower(c).len() > 0
+{ }
+#[verifier::external_body]
+pub proof fn axiom_lower_no_dash(c: char)
+    requires !dash(c)
+    ensures forall|i: int| 0 <= i < u_to_lower(c).len() ==> !dash(#[trigger] u_to_lower(c)[i])
+{ }
+
+/// forward formulation of the rule: `d` = "the previous input character was one of - _ ."
+pub open spec fn pn(d: bool, s: Seq<char>) -> Seq<char> decreases s.len() {
+    if s.len() == 0 { Seq::<char>::empty() }
+    else if dash(s[0]) { (if d { Seq::<char>::empty() } else { seq!['-'] }) + pn(true, s.subrange(1, s.len() as int)) }
+    else { u_to_lower(s[0]) + pn(false, s.subrange(1, s.len() as int)) }
+}
+pub open spec fn no_dash(s: Seq<char>) -> bool { forall|i: int| 0 <= i < s.len() ==> !dash(#[trigger] s[i]) }
+pub open spec fn end_state(d: bool, s: Seq<char>) -> bool { if s.len() == 0 { d } else { dash(s.last()) } }
+
+pub proof fn lemma_pn_snoc(d: bool, s: Seq<char>, c: char)
+    ensures pn(d, s.push(c)) == pn(d, s) + (if dash(c) { if end_state(d, s) { Seq::<char>::empty() } else { seq!['-'] } } else { u_to_lower(c) })
+    decreases s.len()
+{
+    let t = s.push(c);
+    if s.len() == 0 {
+        let e = t.subrange(1, t.len() as int);
+        assert(e.len() == 0);
+        assert(pn(true, e) =~= Seq::<char>::empty());
+        assert(pn(false, e) =~= Seq::<char>::empty());
+        assert(pn(d, s) =~= Seq::<char>::empty());
+        assert(t[0] == c);
+        assert(pn(d, t) =~= pn(d, s) + (if dash(c) { if d { Seq::<char>::empty() } else { seq!['-'] } } else { u_to_lower(c) }));
+    } else {
+        let s1 = s.subrange(1, s.len() as int);
+        assert(t.subrange(1, t.len() as int) =~= s1.push(c));
+        let d1 = dash(s[0]);
+        lemma_pn_snoc(d1, s1, c);
+        assert(end_state(d1, s1) == end_state(d, s)) by { if s1.len() > 0 { assert(s1.last() == s.last()); } }
+        assert(t[0] == s[0]);
+        assert(pn(d, t) =~= pn(d, s) + (if dash(c) { if end_state(d, s) { Seq::<char>::empty() } else { seq!['-'] } } else { u_to_lower(c) }));
+    }
+}
+
+/// the statement-level definition (look-behind) and the forward one agree
+pub proof fn lemma_pypi_norm_is_pn(s: Seq<char>)
+    ensures pypi_norm(s) == pn(false, s)
+    decreases s.len()
+{
+    if s.len() > 0 {
+        let init = s.drop_last();
+        lemma_pypi_norm_is_pn(init);
+        lemma_pn_snoc(false, init, s.last());
+        assert(init.push(s.last()) =~= s);
+        if init.len() > 0 { assert(init.last() == s[s.len() - 2]); }
+        if dash(s.last()) && !(s.len() >= 2 && dash(s[s.len() - 2])) {
+            assert(pypi_norm(init).push('-') =~= pypi_norm(init) + seq!['-']);
+        }
+        assert(pypi_norm(init) + Seq::<char>::empty() =~= pypi_norm(init));
+    }
+}
+
+pub proof fn lemma_pn_block(d: bool, l: Seq<char>, y: Seq<char>)
+    requires no_dash(l), l.len() > 0
+    ensures pn(d, l + y) == lower_seq(l) + pn(false, y)
+    decreases l.len()
+{
+    let t = l + y;
+    assert(t[0] == l[0]);
+    let l1 = l.subrange(1, l.len() as int);
+    assert(t.subrange(1, t.len() as int) =~= l1 + y);
+    assert(l =~= seq![l[0]] + l1);
+    lemma_lower_seq_concat(seq![l[0]], l1);
+    assert(lower_seq(seq![l[0]]) =~= u_to_lower(l[0])) by {
+        assert(seq![l[0]].drop_last() =~= Seq::<char>::empty());
+        assert(lower_seq(Seq::<char>::empty()) =~= Seq::<char>::empty());
+    }
+    if l1.len() == 0 {
+        assert(l1 + y =~= y);
+        assert(lower_seq(l1) =~= Seq::<char>::empty());
+        assert(pn(d, t) =~= lower_seq(l) + pn(false, y));
+    } else {
+        assert forall|i: int| 0 <= i < l1.len() implies !dash(#[trigger] l1[i]) by { assert(l1[i] == l[i + 1]); }
+        lemma_pn_block(false, l1, y);
+        assert(pn(d, t) =~= lower_seq(l) + pn(false, y));
+    }
+}
+
+pub proof fn lemma_pn_idem(d: bool, s: Seq<char>)
+    ensures pn(d, pn(d, s)) == pn(d, s)
+    decreases s.len()
+{
+    if s.len() > 0 {
+        let rest = s.subrange(1, s.len() as int);
+        if dash(s[0]) {
+            lemma_pn_idem(true, rest);
+            if !d {
+                let x = pn(true, rest);
+                let o = seq!['-'] + x;
+                assert(o[0] == '-');
+                assert(o.subrange(1, o.len() as int) =~= x);
+                assert(pn(false, o) =~= seq!['-'] + pn(true, x));
+            } else {
+                assert(Seq::<char>::empty() + pn(true, rest) =~= pn(true, rest));
+            }
+        } else {
+            lemma_pn_idem(false, rest);
+            let l = u_to_lower(s[0]);
+            axiom_lower_nonempty(s[0]);
+            axiom_lower_no_dash(s[0]);
+            axiom_lower_idem_char(s[0]);
+            lemma_pn_block(d, l, pn(false, rest));
+        }
+    }
+}
+
+/// C10: normalising a pypi name twice is normalising it once
+pub proof fn lemma_pypi_norm_idem(s: Seq<char>)
+    ensures pypi_norm(pypi_norm(s)) == pypi_norm(s)
+{
+    lemma_pypi_norm_is_pn(s);
+    lemma_pypi_norm_is_pn(pypi_norm(s));
+    lemma_pn_idem(false, s);
+}
+
+/// C10 (type rules): applying PackageType's hook to its own output succeeds and changes nothing observable
+pub proof fn lemma_pkg_finish_idem(t0: PackageType, p0: PurlParts, t1: PackageType, p1: PurlParts, t2: PackageType, p2: PurlParts, r2: Result<(), PackageError>)
+    requires pkg_finish_rel(t0, p0, t1, p1, Ok::<(), PackageError>(())), pkg_finish_rel(t1, p1, t2, p2, r2)
+    ensures r2 is Ok, t2 == t1, p2.name@ == p1.name@, p2.namespace == p1.namespace, p2.version == p1.version,
+        p2.qualifiers == p1.qualifiers, p2.subpath == p1.subpath
+{
+    match t0 {
+        PackageType::NuGet => { lemma_lower_seq_idem(p0.name@); },
+        PackageType::PyPI => { lemma_pypi_norm_idem(p0.name@); },
+        _ => {},
+    }
+}
+
+// ---- unit theory.c01_typed  <= (contracts):0 ----
+// ---- C01 / C10 for the PURL with the built-in package-type enum (values without a checksum qualifier) ----
+// R2: `impl FromStr for PackageType { fn from_str }` is the hoisted `package_type_from_str` proved in group pkgtype; its contract is
+// restated here as the relation of the (stub) trait impl. `impl PurlShape for PackageType` is imported with the contracts proved there.
+impl FromStr for PackageType {
+    type Err = UnsupportedPackageType;
+    open spec fn from_str_rel(s: Seq<char>, r: Result<PackageType, UnsupportedPackageType>) -> bool {
+        (r is Ok ==> lower_ascii_seq(s) == type_name(r->Ok_0))
+        && ((exists|t: PackageType| lower_ascii_seq(s) == type_name(t)) ==> r is Ok)
+    }
+    #[verifier::external_body]
+    fn from_str(s: &str) -> (r: Result<PackageType, UnsupportedPackageType>) { unimplemented!() }
+}
+
+pub proof fn lemma_type_name_facts(t: PackageType, u: PackageType)
+    ensures
+        valid_type(type_name(t)), lower_ascii_seq(type_name(t)) == type_name(t),
+        type_name(t) == type_name(u) ==> t == u,
+{
+    let n = type_name(t);
+    assert forall|i: int| 0 <= i < n.len() implies type_char(#[trigger] n[i]) && !ascii_upper_c(n[i]) by {
+        match t {
+            PackageType::Cargo => { if i == 0 {} else if i == 1 {} else if i == 2 {} else if i == 3 {} else {} },
+            PackageType::Gem => { if i == 0 {} else if i == 1 {} else {} },
+            PackageType::Golang => { if i == 0 {} else if i == 1 {} else if i == 2 {} else if i == 3 {} else if i == 4 {} else {} },
+            PackageType::Maven => { if i == 0 {} else if i == 1 {} else if i == 2 {} else if i == 3 {} else {} },
+            PackageType::Npm => { if i == 0 {} else if i == 1 {} else {} },
+            PackageType::NuGet => { if i == 0 {} else if i == 1 {} else if i == 2 {} else if i == 3 {} else {} },
+            PackageType::PyPI => { if i == 0 {} else if i == 1 {} else if i == 2 {} else {} },
+        }
+    }
+    lemma_lower_ascii_fixed(n);
+    if type_name(t) == type_name(u) {
+        let m = type_name(u);
+        assert(n.len() == m.len() && n[0] == m[0] && n[1] == m[1]);
+    }
+}
+
+pub proof fn lemma_pypi_norm_nonempty(s: Seq<char>)
+    requires s.len() > 0
+    ensures pypi_norm(s).len() > 0
+    decreases s.len()
+{
+    if dash(s.last()) {
+        if s.len() >= 2 && dash(s[s.len() - 2]) { lemma_pypi_norm_nonempty(s.drop_last()); }
+    } else {
+        axiom_lower_nonempty(s.last());
+    }
+}
+
+/// C01 (PackageType instance, values without a checksum qualifier)
+pub proof fn theorem_c01_typed(s: Seq<char>, g: GenericPurl<PackageType>, r2: Result<GenericPurl<PackageType>, PackageError>)
+    requires
+        parse_post::<PackageType>(s, Ok::<GenericPurl<PackageType>, PackageError>(g)),
+        !has_key(g.parts.qualifiers.qualifiers@, checksum_key()),
+        parse_post::<PackageType>(canon_spec(g.package_type.type_text(), g.parts), r2),
+    ensures
+        r2 is Ok,
+        r2->Ok_0.package_type == g.package_type,
+        same_texts(r2->Ok_0.parts, g.parts),
+        canon_spec(r2->Ok_0.package_type.type_text(), r2->Ok_0.parts) == canon_spec(g.package_type.type_text(), g.parts),
+{
+    let r = Ok::<GenericPurl<PackageType>, PackageError>(g);
+    let a = phase_a(s)->Ok_0;
+    let cr = choose|cr: Result<PackageType, UnsupportedPackageType>| #[trigger] PackageType::from_str_rel(a.ty, cr) && match cr {
+        Err(ce) => r is Err,
+        Ok(t0) => match phase_b(a.rest) {
+            Err(e) => r is Err,
+            Ok(b) => exists|p0: PurlParts, t1: PackageType, p1: PurlParts, fr: Result<(), PackageError>|
+                parts_are(p0, a, b) && #[trigger] PackageType::finish_rel(t0, p0, t1, p1, fr) && build_post::<PackageType>(t1, p1, fr, r),
+        },
+    };
+    let t0 = cr->Ok_0;
+    let b = phase_b(a.rest)->Ok_0;
+    let (p0, t1, p1, fr) = choose|p0: PurlParts, t1: PackageType, p1: PurlParts, fr: Result<(), PackageError>|
+        parts_are(p0, a, b) && #[trigger] PackageType::finish_rel(t0, p0, t1, p1, fr) && build_post::<PackageType>(t1, p1, fr, r);
+    assert(pkg_finish_rel(t0, p0, t1, p1, fr));
+    assert(fr is Ok);       // an error from the hook would have been returned
+    // the parts after the hook are still "parsed parts" except for the name: normality is shown directly
+    let ty1 = type_name(t1);
+    lemma_type_name_facts(t1, t1);
+    assert(g.package_type == t1 && g.package_type.type_text() == ty1);
+    let q2 = nonempty_part(p1.qualifiers.qualifiers@);
+    lemma_checksum_key();
+    assert(wf_seq(p1.qualifiers.qualifiers@));
+    lemma_nonempty_wf(p1.qualifiers.qualifiers@);
+    lemma_nonempty_subset(p1.qualifiers.qualifiers@);
+    if has_key(q2, checksum_key()) {
+        let p = pos_of(q2, checksum_key());
+        lemma_has_pair_pos_key(q2, checksum_key());
+        let gq = g.parts.qualifiers.qualifiers@;
+        assert(gq[p].0 == q2[p].0);
+        assert(has_key(gq, checksum_key()));
+    }
+    lemma_c07_of_phases(s);
+    let ns_segs = if b.ns.len() == 0 { Seq::<Seq<char>>::empty() } else {
+        choose|segs: Seq<Seq<char>>| #![auto] segs.len() > 0 && b.ns == join_segs(segs) && split_spec(b.ns, '/') == segs
+            && forall|i: int| 0 <= i < segs.len() ==> clean_ns_seg(#[trigger] segs[i]) };
+    let sub_segs = if a.sub.len() == 0 { Seq::<Seq<char>>::empty() } else {
+        choose|segs: Seq<Seq<char>>| #![auto] segs.len() > 0 && a.sub == join_segs(segs) && split_spec(a.sub, '/') == segs
+            && forall|i: int| 0 <= i < segs.len() ==> clean_sub_seg(#[trigger] segs[i]) };
+    assert(norm_parts(g.parts, ns_segs, sub_segs));
+    lemma_parse_canon(ty1, g.parts, ns_segs, sub_segs);
+    let c = canon_spec(ty1, g.parts);
+    let a2 = phase_a(c)->Ok_0;
+    let b2 = phase_b(a2.rest)->Ok_0;
+    // ---- second parse: the type's own name converts to the type ----
+    let cr2 = choose|cr2: Result<PackageType, UnsupportedPackageType>| #[trigger] PackageType::from_str_rel(a2.ty, cr2) && match cr2 {
+        Err(ce) => r2 is Err,
+        Ok(t0) => match phase_b(a2.rest) {
+            Err(e) => r2 is Err,
+            Ok(b) => exists|p0: PurlParts, t1: PackageType, p1: PurlParts, fr: Result<(), PackageError>|
+                parts_are(p0, a2, b) && #[trigger] PackageType::finish_rel(t0, p0, t1, p1, fr) && build_post::<PackageType>(t1, p1, fr, r2),
+        },
+    };
+    assert(lower_ascii_seq(ty1) == type_name(t1));
+    assert(cr2 is Ok);
+    let u0 = cr2->Ok_0;
+    lemma_type_name_facts(u0, t1);
+    assert(u0 == t1);
+    let (q0, u1, q1, fr2) = choose|q0: PurlParts, u1: PackageType, q1: PurlParts, fr2: Result<(), PackageError>|
+        parts_are(q0, a2, b2) && #[trigger] PackageType::finish_rel(u0, q0, u1, q1, fr2) && build_post::<PackageType>(u1, q1, fr2, r2);
+    assert(pkg_finish_rel(u0, q0, u1, q1, fr2));
+    // the hook applied to its own output: accepted, name unchanged
+    match t0 {
+        PackageType::NuGet => { lemma_lower_seq_idem(p0.name@); },
+        PackageType::PyPI => { lemma_pypi_norm_idem(p0.name@); },
+        PackageType::Maven => { assert(q0.namespace@ == p0.namespace@); },
+        _ => {},
+    }
+    assert(fr2 is Ok && u1 == t1 && q1.name@ == g.parts.name@);
+    let gq = g.parts.qualifiers.qualifiers@;
+    let qq = q1.qualifiers.qualifiers@;
+    assert(kvs(qq) == kvs(gq));
+    lemma_kvs_values_nonempty(gq, qq);
+    lemma_nonempty_id(qq);
+    lemma_kvs_no_key(gq, qq, checksum_key());
+    assert(r2 is Ok);
+    let g2 = r2->Ok_0;
+    assert(g2.parts.qualifiers.qualifiers@ == qq);
+    assert(same_texts(g2.parts, g.parts));
+    lemma_canon_congr(ty1, g2.parts, g.parts);
+}
+
+/// what C04 / C08 say of every typed value handed out: the name already obeys the type's rule, maven has a namespace
+pub open spec fn handed_out_typed(g: GenericPurl<PackageType>) -> bool {
+    g.parts.name@.len() > 0 && wf_seq(g.parts.qualifiers.qualifiers@)
+    && (forall|i: int| 0 <= i < g.parts.qualifiers.qualifiers@.len() ==> (#[trigger] g.parts.qualifiers.qualifiers@[i]).1@.len() > 0)
+    && match g.package_type {
+        PackageType::NuGet => lower_seq(g.parts.name@) == g.parts.name@,
+        PackageType::PyPI => pypi_norm(g.parts.name@) == g.parts.name@,
+        PackageType::Maven => !all_char(g.parts.namespace@, '/'),
+        _ => true,
+    }
+}
+
+/// every value build() returns after PackageType's hook is handed_out_typed (from build_post and pkg_finish_rel alone)
+pub proof fn lemma_built_is_handed_out_typed(t0: PackageType, p0: PurlParts, t1: PackageType, p1: PurlParts, fr: Result<(), PackageError>, g: GenericPurl<PackageType>)
+    requires wf_seq(p0.qualifiers.qualifiers@), pkg_finish_rel(t0, p0, t1, p1, fr),
+        build_post::<PackageType>(t1, p1, fr, Ok::<GenericPurl<PackageType>, PackageError>(g)),
+        !has_key(g.parts.qualifiers.qualifiers@, checksum_key()),
+    ensures handed_out_typed(g)
+{
+    lemma_checksum_key();
+    let q2 = nonempty_part(p1.qualifiers.qualifiers@);
+    lemma_nonempty_wf(p1.qualifiers.qualifiers@);
+    lemma_nonempty_subset(p1.qualifiers.qualifiers@);
+    if has_key(q2, checksum_key()) {
+        let p = pos_of(q2, checksum_key());
+        lemma_has_pair_pos_key(q2, checksum_key());
+        let gq = g.parts.qualifiers.qualifiers@;
+        assert(gq[p].0 == q2[p].0);
+        assert(has_key(gq, checksum_key()));
+    }
+    match t0 {
+        PackageType::NuGet => { lemma_lower_seq_idem(p0.name@); },
+        PackageType::PyPI => { lemma_pypi_norm_idem(p0.name@); },
+        _ => {},
+    }
+}
+
+/// C10 (PackageType, values without a checksum qualifier): build() applied to the value's own type and parts succeeds and
+/// returns the same type, the same texts and the same canonical string
+pub proof fn theorem_c10_typed(g: GenericPurl<PackageType>, t1: PackageType, p1: PurlParts, fr: Result<(), PackageError>, r: Result<GenericPurl<PackageType>, PackageError>)
+    requires
+        handed_out_typed(g), !has_key(g.parts.qualifiers.qualifiers@, checksum_key()),
+        PackageType::finish_rel(g.package_type, g.parts, t1, p1, fr), build_post::<PackageType>(t1, p1, fr, r),
+    ensures
+        r is Ok, r->Ok_0.package_type == g.package_type, same_texts(r->Ok_0.parts, g.parts),
+        canon_spec(r->Ok_0.package_type.type_text(), r->Ok_0.parts) == canon_spec(g.package_type.type_text(), g.parts),
+{
+    assert(pkg_finish_rel(g.package_type, g.parts, t1, p1, fr));
+    assert(fr is Ok && t1 == g.package_type && p1.name@ == g.parts.name@);
+    assert(p1.qualifiers == g.parts.qualifiers);
+    lemma_nonempty_id(g.parts.qualifiers.qualifiers@);
+    assert(r is Ok);
+    assert(same_texts(r->Ok_0.parts, g.parts));
+    lemma_canon_congr(type_name(t1), r->Ok_0.parts, g.parts);
+}
+
 
 // ---- consistency canary: must be REJECTED; if it verifies the assumptions are contradictory ----
 pub proof fn verif_canary_must_fail()
@@ -2962,6 +3000,19 @@ pub proof fn verif_vacuity_c01_must_fail<T: FromStr + PurlShape>(s: Seq<char>, g
         parse_post::<T>(s, Ok::<GenericPurl<T>, <T as PurlShape>::Error>(g)),
         !has_key(g.parts.qualifiers.qualifiers@, checksum_key()),
         parse_post::<T>(canon_spec(g.package_type.type_text(), g.parts), r2),
+    ensures false
+{ }
+pub proof fn verif_vacuity_c01_typed_must_fail(s: Seq<char>, g: GenericPurl<PackageType>, r2: Result<GenericPurl<PackageType>, PackageError>)
+    requires
+        parse_post::<PackageType>(s, Ok::<GenericPurl<PackageType>, PackageError>(g)),
+        !has_key(g.parts.qualifiers.qualifiers@, checksum_key()),
+        parse_post::<PackageType>(canon_spec(g.package_type.type_text(), g.parts), r2),
+    ensures false
+{ }
+pub proof fn verif_vacuity_c10_typed_must_fail(g: GenericPurl<PackageType>, t1: PackageType, p1: PurlParts, fr: Result<(), PackageError>, r: Result<GenericPurl<PackageType>, PackageError>)
+    requires
+        handed_out_typed(g), !has_key(g.parts.qualifiers.qualifiers@, checksum_key()),
+        PackageType::finish_rel(g.package_type, g.parts, t1, p1, fr), build_post::<PackageType>(t1, p1, fr, r),
     ensures false
 { }
 } // verus!
